@@ -281,6 +281,23 @@ func runC09(w *World, r *Report) {
 				return ok && strings.Contains(Path(l.X), "onRequest.Headers") && strings.Contains(Path(l.Index), "GroupBy.HeaderName")
 			})
 			r.Check(okHdr, "R5", "buildGroupID/header-value", posOf(alt.Ret), "group id %s derives from the configured group header's value", Path(alt.Val))
+			// groups are told apart by the exact (obfuscated) value: only the header NAME may be case-folded
+			folded := false
+			Instrs(bg, func(in ssa.Instruction) {
+				c, ok := in.(*ssa.Call)
+				if !ok || !isCallTo(c, "strings.ToLower", "strings.ToUpper", "strings.EqualFold", "strings.Title") {
+					return
+				}
+				for _, a := range c.Call.Args {
+					if Derives(a, func(x ssa.Value) bool {
+						l, isL := x.(*ssa.Lookup)
+						return isL && strings.Contains(Path(l.X), "onRequest.Headers")
+					}) {
+						folded = true
+					}
+				}
+			})
+			r.Check(!folded, "R5", "buildGroupID/value-not-case-folded", posOf(alt.Ret), "the group header's value reaches the group id without case folding (two values differing in case are two groups)")
 		}
 		if !okHdr {
 			r.Undec("R5", "buildGroupID/header-value-count", bg.Pos(), "no non-constant group id return found")
